@@ -7,7 +7,7 @@ From Coq Require Import ZArith Reals Lia Lra Bool.
 From Flocq Require Import Core IEEE754.BinarySingleNaN.
 From Dashu Require Import Base.Prelude Cross.XVal Cross.XOrdModel Cross.XDispatch
   Cross.XOrdProofs Cross.XPrimProofs Cross.XRatioProofs Cross.XDispatchProofs Cross.XEstInstance
-  Cross.XLog2Model Cross.XLog2Flocq.
+  Cross.XLog2Model Cross.XLog2Flocq Cross.XEstF32Model.
 From Dashu Require Float.Contract.
 Open Scope Z_scope.
 
@@ -178,22 +178,55 @@ Proof.
   destruct (Z.ltb_spec (Z.abs s) (2 ^ (2 * w))); [reflexivity | lia].
 Qed.
 
-Definition ord_raw := ord_asis f32 f_gt (ibig_log2_bounds lg w) (f_log2_bounds lg w) (q_log2_bounds lg w).
-
-Lemma ord_raw_eq a b : dom a -> dom b -> ord_raw a b = ord_asis f32 f_gt ib32 fb32 qb32 a b.
+Lemma ord_raw_eq a b : dom a -> dom b -> ord_raw lg w a b = ord_asis f32 f_gt ib32 fb32 qb32 a b.
 Proof.
-  unfold ord_raw. destruct a as [x | x | B1 s1 e1 | n1 d1 | mb1 eb1 w1], b as [y | y | B2 s2 e2 | n2 d2 | mb2 eb2 w2];
-    cbn [dom ord_asis]; intros Da Db; try reflexivity;
-    unfold repr_num_cmp, frepr_cmp_ubig, frepr_cmp_ibig, qrepr_cmp_ubig, qrepr_cmp_ibig, qrepr_cmp_fbig;
-    repeat match goal with
-    | H : _ /\ _ |- _ => destruct H
-    end;
-    rewrite ?ib32_dom, ?fb32_dom, ?qb32_dom by assumption; reflexivity.
+  unfold ord_raw. destruct a as [x | x | B1 s1 e1 | n1 d1 | mb1 eb1 w1], b as [y | y | B2 s2 e2 | n2 d2 | mb2 eb2 w2].
+  all: cbn [dom].
+  all: intros Da Db.
+  all: repeat match goal with
+    | H : _ /\ _ |- _ => lazymatch H with Hw => fail | _ => destruct H end
+    end.
+  all: unfold ord_asis.
+  all: unfold repr_num_cmp, frepr_cmp_ubig, frepr_cmp_ibig, qrepr_cmp_ubig, qrepr_cmp_ibig, qrepr_cmp_fbig.
+  all: rewrite ?ib32_dom by assumption.
+  all: rewrite ?fb32_dom by assumption.
+  all: rewrite ?qb32_dom by assumption.
+  all: match goal with |- ?x = ?y => constr_eq x y; reflexivity end.
 Qed.
 
 (** THE result of this file: the transcribed NumOrd bodies, run with the transcribed f32 estimators of the library,
     return the order of the exact values *)
 Theorem ord_raw_correct a b r : wf a -> wf b -> dom a -> dom b ->
-  ord_raw a b = Some r -> r = spec_cmp (val a) (val b).
+  ord_raw lg w a b = Some r -> r = spec_cmp (val a) (val b).
 Proof. intros Wa Wb Da Db H. rewrite (ord_raw_eq a b Da Db) in H. exact (ord_f32_correct a b r Wa Wb H). Qed.
+
+Lemma abs_raw_eq a b : dom a -> dom b -> abs_raw lg w a b = abs_asis f32 f_gt ib32 fb32 qb32 dub32 a b.
+Proof.
+  unfold abs_raw. destruct a as [x | x | B1 s1 e1 | n1 d1 | mb1 eb1 w1], b as [y | y | B2 s2 e2 | n2 d2 | mb2 eb2 w2].
+  all: cbn [dom].
+  all: intros Da Db.
+  all: repeat match goal with
+    | H : _ /\ _ |- _ => lazymatch H with Hw => fail | _ => destruct H end
+    end.
+  all: unfold abs_asis.
+  all: unfold fsame_cmp, frepr_cmp_ubig, frepr_cmp_ibig, qrepr_cmp_ubig, qrepr_cmp_ibig, qrepr_cmp_fbig.
+  all: try (destruct (Z.eqb_spec B1 B2) as [<- | ]).
+  all: rewrite ?ib32_dom by assumption.
+  all: rewrite ?fb32_dom by assumption.
+  all: rewrite ?qb32_dom by assumption.
+  all: rewrite ?dub32_dom by assumption.
+  all: match goal with |- ?x = ?y => constr_eq x y; reflexivity end.
+Qed.
+
+Theorem abs_raw_correct a b c : wf a -> wf b -> dom a -> dom b ->
+  abs_raw lg w a b = Some c -> Some c = spec_abs_cmp (val a) (val b).
+Proof. intros Wa Wb Da Db H. rewrite (abs_raw_eq a b Da Db) in H. exact (abs_f32_correct a b c Wa Wb H). Qed.
+
+Theorem fsame_raw_correct B s1 e1 s2 e2 : 2 <= B < 2 ^ w -> fwf s1 e1 -> fwf s2 e2 ->
+  Z.abs s1 < 2 ^ (2 * w) -> Z.abs s2 < 2 ^ (2 * w) ->
+  Some (fsame_raw lg w B s1 e1 s2 e2) = spec_cmp (fval B s1 e1) (fval B s2 e2).
+Proof.
+  intros HB W1 W2 S1 S2. rewrite <- (fsame_f32_correct B s1 e1 s2 e2 ltac:(lia) W1 W2). f_equal.
+  unfold fsame_raw, fsame_ord, fsame_cmp. rewrite !dub32_dom by lia. reflexivity.
+Qed.
 End Inst.
